@@ -23,6 +23,7 @@ over all random outcomes - is not decided):
 from __future__ import annotations
 
 import ast
+import re
 
 from ..cfg import CFG
 from ..exctypes import ExcTypes
@@ -556,7 +557,8 @@ def rule_r3_r10(rep, program: Program):
             if (neg, pos) != (want_neg, want_pos):
                 r.violate(PROP, f"{f.qualname}:merge-order:dir={'+' if positive_dir else '-'}:{neg},{pos}", f"for direction {'+1' if positive_dir else '-1'} the sub-trees are merged as (negative={neg}, positive={pos}); the newly built tree must be on the {'positive' if positive_dir else 'negative'} side", node=c, file=f.file)
         # continuation edge
-        cont = [n for n in ast.walk(f.node) if isinstance(n, ast.Assign) and norm(n.targets[0]) == "state" and isinstance(n.value, ast.IfExp)]
+        # the state the next sub-tree is grown from: a local (whatever its name) chosen between the two edge states
+        cont = [n for n in ast.walk(f.node) if isinstance(n, ast.Assign) and isinstance(n.targets[0], ast.Name) and isinstance(n.value, ast.IfExp) and {norm(n.value.body).rsplit(".", 1)[-1], norm(n.value.orelse).rsplit(".", 1)[-1]} == {"positive", "negative"}]
         if len(cont) != 1:
             raise AnalysisError(f"{f.qualname}: continuation state selection not found")
         e = cont[0].value
@@ -573,7 +575,8 @@ def rule_r3_r10(rep, program: Program):
             r.violate(PROP, f"{f.qualname}:continuation:{norm(e)[:50]}", f"the next sub-tree is not grown from the {base}'s edge in the integration direction (positive edge for +1, negative edge for -1): the trajectory is not contiguous", node=cont[0], file=f.file)
     # sample sets the direction of the edge state before expanding
     sm = k.methods["sample"]
-    if not any(isinstance(n, ast.Assign) and norm(n.targets[0]) == "state.dir" and norm(n.value) == "direction" for n in ast.walk(sm.node)):
+    edge_names = {n.targets[0].id for n in ast.walk(sm.node) if isinstance(n, ast.Assign) and isinstance(n.targets[0], ast.Name) and isinstance(n.value, ast.IfExp) and {norm(n.value.body).rsplit(".", 1)[-1], norm(n.value.orelse).rsplit(".", 1)[-1]} == {"positive", "negative"}} | {"state"}
+    if not any(isinstance(n, ast.Assign) and isinstance(n.targets[0], ast.Attribute) and n.targets[0].attr == "dir" and norm(n.targets[0].value) in edge_names and norm(n.value) == "direction" for n in ast.walk(sm.node)):
         r.violate(PROP, "DynamicIntegrationTransition.sample:state.dir", "the edge state's direction flag is not set to the sampled direction before expanding the tree", node=sm.node, file=sm.file)
     return r
 
@@ -695,19 +698,32 @@ def rule_r6(rep, program: Program):
     avs = [n for n in ast.walk(sm.node) if isinstance(n, ast.Assign) and norm(n.targets[0]) == "stats['av_metrop_accept_prob']" and not isinstance(n.value, ast.Constant)]
     pops = {norm(n.targets[0]): norm(n.value) for n in ast.walk(sm.node) if isinstance(n, ast.Assign) and isinstance(n.value, ast.Call) and norm(n.value.func) == "stats.pop"}
     ok = False
+    # a local bound once to a statistics entry (`n_step = stats["n_step"]`) stands for that entry
+    counts = {}
+    for n in ast.walk(sm.node):
+        if isinstance(n, ast.Name) and isinstance(n.ctx, ast.Store):
+            counts[n.id] = counts.get(n.id, 0) + 1
+    entry_alias = {n.targets[0].id: norm(n.value) for n in ast.walk(sm.node) if isinstance(n, ast.Assign) and len(n.targets) == 1 and isinstance(n.targets[0], ast.Name) and counts.get(n.targets[0].id) == 1 and isinstance(n.value, ast.Subscript) and norm(n.value.value) == "stats"}
+
+    def res(e):
+        txt = norm(e)
+        for nm, ent in entry_alias.items():
+            txt = re.sub(rf"\b{re.escape(nm)}\b", ent, txt)
+        return txt
+
     for a in avs:
         # the mean may sit in the non-degenerate arm of a conditional expression guarding n_step > 0
         cands = [a.value]
         if isinstance(a.value, ast.IfExp):
             cands = [a.value.body, a.value.orelse]
         for v in cands:
-            if not (isinstance(v, ast.BinOp) and isinstance(v.op, ast.Div) and norm(v.right) == "stats['n_step']"):
+            if not (isinstance(v, ast.BinOp) and isinstance(v.op, ast.Div) and res(v.right) == "stats['n_step']"):
                 continue
             num = norm(v.left)
             if pops.get(num) == "stats.pop('sum_metrop_accept_prob')" or num == "stats['sum_metrop_accept_prob']":
                 ok = True
             # zero-step guard (if present) must test the same counter
-            if isinstance(a.value, ast.IfExp) and "stats['n_step']" not in norm(a.value.test):
+            if isinstance(a.value, ast.IfExp) and "stats['n_step']" not in res(a.value.test):
                 ok = False
     r.inst({"reported mean": [norm(a.value) for a in avs]})
     if not ok:
@@ -733,7 +749,27 @@ def rule_r6(rep, program: Program):
     return r
 
 
+def _r7_build_tree(r, program: Program):
+    """The per-state acceptance statistic of the dynamic transitions is based on h_init - h."""
+    bt = program.method("DynamicIntegrationTransition", "_build_tree")
+    cands = []
+    for n in ast.walk(bt.node):
+        if isinstance(n, ast.BinOp) and isinstance(n.op, ast.Sub) and "h_init" in norm(n) and "delta" not in norm(n):
+            cands.append(norm(n))
+    r.inst({"_build_tree energy differences": sorted(set(cands))})
+    bad = [c for c in cands if c.replace('"', "'") not in ("aux_vars['h_init'] - h",)]
+    for c in sorted(set(bad)):
+        r.violate(PROP, f"_build_tree:h_diff:{c}", "the per-state Metropolis acceptance statistic is not based on h_init - h", node=bt.node, file=bt.file)
+
+
 def rule_r7(rep, program: Program):
+    from . import transim
+
+    if transim.available(program):
+        r = rep.rule("R7", "Metropolis ratio exp(min(0, h(start) - h(proposal))) and accept test U < p [the Metropolis step is decided by the abstract runs (R14); structural analysis is the fallback]", floor=1)
+        r.inst({"decided by": "abstract runs (R14)"})
+        _r7_build_tree(r, program)
+        return r
     r = rep.rule("R7", "Metropolis ratio exp(min(0, h(start) - h(proposal))) and accept test U < p", floor=3)
     f = program.method("MetropolisIntegrationTransition", "_sample_n_step")
     sname = f.params[1]
@@ -947,3 +983,6 @@ def run(rep, program: Program, tier: str) -> None:
     rep.isolate(rule_r11, rep, program)
     rep.isolate(rule_r12, rep, program)
     rep.isolate(rule_r13, rep, program)
+    from . import transim
+
+    rep.isolate(transim.rule, rep, program, PROP, "R14")
